@@ -872,7 +872,7 @@ func Run(c *core.Ctx) {
 		if v.prop != "" {
 			in := tc
 			detail := v.prop
-			if !shrunkProp && !v.rootSkipped {
+			if !shrunkProp {
 				shrunkProp = true
 				in = shrink(c, scratch, bins, tc, true, par)
 				if vv := evalCases(c, filepath.Join(scratch, "againp"), bins, []tcase{in}, 1); vv[0].prop != "" {
@@ -881,24 +881,22 @@ func Run(c *core.Ctx) {
 			}
 			shape := ""
 			if v.rootSkipped && v.o.raceReport == "" {
-				// narrow shape: the root directory's own base name is the cause - the same tree and flags under a
-				// neutral root name satisfy the specification
+				// narrow shape (defect fixed by 91f7c9a; a failure of this shape is a regression): the root directory's own
+				// base name is the cause - the same tree and flags under a neutral root name satisfy the specification
 				n := tc
 				n.Root = "r0"
 				if vv := evalCases(c, filepath.Join(scratch, "neutral"), bins, []tcase{n}, 1); vv[0].prop == "" && vv[0].tie == "" && !vv[0].rootSkipped {
 					shape = "root-dir-name-skipped"
 				}
 			}
-			if shape == "" {
-				propOK = false
-			}
-			if shape == "" || c.NFails("tree: specification on templ generate's own output") < 40 {
+			propOK = false
+			if c.NFails("tree: specification on templ generate's own output") < 40 {
 				c.Fail("property", "tree: specification on templ generate's own output", shape, in, detail)
 			}
 		}
 	}
 	c.Oblige("correspondence", "tree: extracted model = real CLI (events in WalkFiles order, exit status, every path's kind/contents/mtime after the first and the second run) on all generated trees x flags x worker counts", tieOK, "")
-	c.Oblige("correspondence", "tree: extracted spec_check holds of the CLI's own before/after trees and exit status, and a second run changes no contents (well-formed trees; root-name finding aside)", propOK, "")
+	c.Oblige("correspondence", "tree: extracted spec_check holds of the CLI's own before/after trees and exit status, and a second run changes no contents (well-formed trees, skipped-looking root names included)", propOK, "")
 	if !c.Quick() {
 		c.Oblige("side-condition", "no data race reported by the race-instrumented binary", raceOK, "")
 	}
@@ -917,7 +915,7 @@ func Run(c *core.Ctx) {
 
 func hist(c *core.Ctx, tc tcase, v verdict) {
 	if v.rootSkipped {
-		c.Hist("root: skipped name")
+		c.Hist("root: named like a skipped directory")
 	} else {
 		c.Hist("root: ordinary name")
 	}
